@@ -5,7 +5,8 @@
     destination is the upstream socket), key 2c+1 the downstream link. Three facts about the code
     are parameters extracted from the source: freeBlocker waits for the accept loop before it
     signals proxy.tomb.Done, a connection-table key holds the destination socket of the link of
-    that name, and both sockets are registered before the links are started. *)
+    that name, both sockets are registered before the links are started, and a link's writer
+    deregisters the name the link was started under. *)
 From TP Require Import Model.Prelude Extracted.
 Local Open Scope nat_scope.
 
@@ -38,7 +39,7 @@ Inductive pact :=
 | PLinkEnd (k : nat)
 | PStopKill | PFreeBlocker1 | PFreeBlocker2 | PStopWaited | PStopCloseAll.
 
-Definition pstep (s : px) (a : pact) : option px :=
+Definition pstep_gen (own : bool) (s : px) (a : pact) : option px :=
   match a with
   | PAccept =>
     match x_acc s with
@@ -88,8 +89,11 @@ Definition pstep (s : px) (a : pact) : option px :=
     end
   | PLinkEnd k =>
     (* link.write: dest.Close(); RemoveLink; RemoveConnection(name) *)
+    (* the name it deregisters is the one it was started and registered under (extracted); were it not, the entries of
+       the link of the other direction would go instead *)
+    let dk := if own then k else dest_of k in
     if existsb (Nat.eqb k) (x_links s) then
-      Some (mkPx (x_listening s) (x_acc s) (x_next s) (rm (dest_of k) (x_open s)) (rm_key k (x_table s)) (rm k (x_links s))
+      Some (mkPx (x_listening s) (x_acc s) (x_next s) (rm (dest_of k) (x_open s)) (rm_key dk (x_table s)) (rm dk (x_links s))
                  (x_dying s) (x_accdying s) (x_done s) (x_stop s))
     else None
   | PStopKill =>
@@ -118,6 +122,8 @@ Definition pstep (s : px) (a : pact) : option px :=
     | _ => None
     end
   end.
+
+Definition pstep := pstep_gen writer_deregisters_its_name.
 
 Fixpoint prun (s : px) (l : list pact) : option px :=
   match l with [] => Some s | a :: r => match pstep s a with Some s' => prun s' r | None => None end end.
